@@ -46,7 +46,13 @@ struct Report {
 
   void label(const std::string& l, long n = 1) { labels[l] += n; }
   void exclude(const std::string& why, long n = 1) { excluded[why] += n; }
-  void nontriv(uint64_t h) { nontrivial.insert(h); }
+  // Distinct non-trivial cases are counted through their hashes; the set is capped so that a long campaign
+  // does not grow without bound (beyond the cap the count is a lower bound, noted in the labels).
+  static constexpr size_t kNontrivCap = 1500000;
+  void nontriv(uint64_t h) {
+    if (nontrivial.size() < kNontrivCap) nontrivial.insert(h);
+    else labels["nontrivial-beyond-hash-cap(not-deduplicated)"]++;
+  }
   void sample(const std::string& s) {
     if (samples.size() < max_samples) samples.push_back(s.size() > 600 ? s.substr(0, 600) + "..." : s);
   }
